@@ -292,6 +292,16 @@ def install():
     # TLS is out of scope; building the default context also costs ~30 ms per build_opener()
     http.client._create_https_context = lambda http_version: None
 
+    # code that talks to http.client directly (no urllib opener) lands on the simulated network too
+    def _connect_http(self):
+        self.sock = SimSocket(NET.connect("http", self.host, self.port, self.timeout))
+
+    def _connect_https(self):
+        self.sock = SimSocket(NET.connect("https", self.host, self.port, self.timeout))
+    http.client.HTTPConnection.connect = _connect_http
+    http.client.HTTPSConnection.connect = _connect_https
+    SimHTTPConnection.connect = SimHTTPConnection.__dict__["connect"]
+
 
 def mount(net):
     global NET
